@@ -334,6 +334,40 @@ mod private {
                 }
             }
         }
+        // ... or two ranges of one buffer that overlap only partly, nest properly, touch, or lie apart
+        if s1.len() + s2.len() >= 3 {
+            let buf: Vec<char> = s1.iter().chain(s2.iter()).copied().collect();
+            let n = buf.len();
+            for round in 0..3 {
+                let (a, b, c, d) = if round == 0 {
+                    // a < c < b < d: the second starts inside the first and runs past its end
+                    let a = cx.rng.below(n - 2);
+                    let c = cx.rng.range(a + 1, n - 2);
+                    let b = cx.rng.range(c + 1, n - 1);
+                    let d = cx.rng.range(b + 1, n);
+                    (a, b, c, d)
+                } else {
+                    let a = cx.rng.below(n + 1);
+                    let b = cx.rng.range(a, n);
+                    let c = cx.rng.below(n + 1);
+                    let d = cx.rng.range(c, n);
+                    (a, b, c, d)
+                };
+                let (x, y) = (&buf[a..b], &buf[c..d]);
+                let (x, y) = if cx.rng.chance(1, 2) { (x, y) } else { (y, x) };
+                let got = JC.with(|j| j.similarity(x, y));
+                let exp = oracle::set_jaccard(x, y);
+                cx.eval();
+                cx.count("calls whose arguments are two ranges of one buffer");
+                if a < c && c < b && b < d {
+                    cx.count("calls whose arguments are ranges of one buffer that overlap only partly");
+                }
+                if got != exp {
+                    cx.fail_sig("jaccard", "jaccard:not-the-set-similarity".into(), json!({"buffer": s(&buf), "range1": [a, b], "range2": [c, d], "seq1": s(x), "seq2": s(y), "arguments": "two ranges of one buffer", "similarity": got, "expected": exp}));
+                    break;
+                }
+            }
+        }
         if !s1.is_empty() && !s2.is_empty() {
             cx.key(hparts(&[&s(s1), &s(s2)]));
         }
@@ -509,8 +543,26 @@ impl Prims {
         if lo > 0 {
             cx.count("stores of words with letters above U+FFFF and their 16-bit look-alikes");
         }
-        let words = &words[lo..];
-        let k = k - lo;
+        // one store in eight holds random short words and, for each, one or two words that would share a trigram key
+        // with it under a narrower packing than a character needs (8, 16 or 20 bits; truncated, or spilling into the
+        // neighbouring letter's field)
+        let mut owned: Vec<String> = vec![];
+        if lo == 0 && cx.rng.chance(1, 8) {
+            let alpha: Vec<char> = if cx.rng.chance(1, 2) { "abcd".chars().collect() } else { gen::lower_alphabet(lang) };
+            for _ in 0..cx.rng.range(2, 5) {
+                let w: Vec<char> = gen::rand_word(&mut cx.rng, &alpha, 2, 5).chars().collect();
+                for _ in 0..cx.rng.range(1, 2) {
+                    let l = gen::lookalike_of_word(&mut cx.rng, &w);
+                    if l != w {
+                        owned.push(l.iter().collect());
+                    }
+                }
+                owned.push(w.iter().collect());
+            }
+            cx.count("stores of random words and their look-alikes under 8-, 16- or 20-bit packing");
+        }
+        let dynamic: Vec<&str> = owned.iter().map(|s| s.as_str()).collect();
+        let (words, k): (&[&str], usize) = if dynamic.is_empty() { (&words[lo..], k - lo) } else { (&dynamic[..], dynamic.len()) };
         let recs: Vec<Rec> = (0..n)
             .map(|i| {
                 let m = cx.rng.below(4);
@@ -979,9 +1031,9 @@ impl Prop for Prims {
     }
     fn floors(&self) -> Vec<(&'static str, u64, u64)> {
         match self.0 {
-            Which::Distance => vec![("exhaustive pairs", 100000, 2000000), ("prefix cells compared", 1000000, 20000000), ("pairs where a discount lowered the distance", 10000, 100000), ("random pairs beyond capacity 20", 500, 5000), ("long pairs with sampled prefix cells", 200, 2000), ("random cases with per-position character classes", 2000, 20000), ("re-classed repeat calls", 10000, 100000), ("random cases over an alphabet of 41-110 symbols", 3000, 30000), ("calls with one word held fixed while the other grows", 20000, 200000), ("session calls on one instance", 1000000, 6000000), ("most calls on one instance max ", 131072, 131072), ("hook matrix growths", 3, 3), ("hook matrix max size", 50, 50)],
-            Which::Jaccard => vec![("exhaustive pairs", 100000, 1500000), ("pairs with partial overlap", 20000, 200000), ("pairs beyond the initial capacity of 20", 500, 5000), ("random cases over a wide alphabet", 1000, 10000), ("hook jaccard accesses", 100000, 1000000)],
-            Which::Index => vec![("prepare calls", 5000, 50000), ("capped calls", 500, 5000), ("calls with ties at the cut", 100, 1000), ("size 0", 300, 3000), ("corpus prepare calls", 200, 2000), ("stores of 1023-5000 records", 50, 500), ("queries with more than 255 distinct grams", 300, 15000), ("calls at the boundary between 'all listed' and 'capped'", 300, 15000), ("session calls on one index", 1000000, 10000000), ("most calls on one index max ", 131000, 131000), ("sessions past 2^17 calls", 2, 20), ("calls with a query without words", 300, 3000), ("sparse indexes of 65 000 - 330 000 records", 16, 160), ("queries with more than 65 536 distinct grams", 2, 50), ("stores of words with letters above U+FFFF and their 16-bit look-alikes", 300, 3000)],
+            Which::Distance => vec![("exhaustive pairs", 100000, 2000000), ("prefix cells compared", 1000000, 20000000), ("pairs where a discount lowered the distance", 10000, 100000), ("random pairs beyond capacity 20", 500, 5000), ("long pairs with sampled prefix cells", 200, 2000), ("random cases with per-position character classes", 2000, 20000), ("re-classed repeat calls", 10000, 100000), ("random cases over an alphabet of 41-110 symbols", 3000, 30000), ("random cases over letters related by case or compatibility mappings", 3000, 30000), ("calls with one word held fixed while the other grows", 20000, 200000), ("session calls on one instance", 1000000, 6000000), ("most calls on one instance max ", 131072, 131072), ("hook matrix growths", 3, 3), ("hook matrix max size", 50, 50)],
+            Which::Jaccard => vec![("exhaustive pairs", 100000, 1500000), ("pairs with partial overlap", 20000, 200000), ("pairs beyond the initial capacity of 20", 500, 5000), ("calls whose arguments are ranges of one buffer that overlap only partly", 20000, 200000), ("random cases over a wide alphabet", 1000, 10000), ("hook jaccard accesses", 100000, 1000000)],
+            Which::Index => vec![("prepare calls", 5000, 50000), ("capped calls", 500, 5000), ("calls with ties at the cut", 100, 1000), ("size 0", 300, 3000), ("corpus prepare calls", 200, 2000), ("stores of 1023-5000 records", 50, 500), ("queries with more than 255 distinct grams", 300, 15000), ("calls at the boundary between 'all listed' and 'capped'", 300, 15000), ("session calls on one index", 1000000, 10000000), ("most calls on one index max ", 131000, 131000), ("sessions past 2^17 calls", 2, 20), ("calls with a query without words", 300, 3000), ("sparse indexes of 65 000 - 330 000 records", 16, 160), ("queries with more than 65 536 distinct grams", 2, 50), ("stores of words with letters above U+FFFF and their 16-bit look-alikes", 300, 3000), ("stores of random words and their look-alikes under 8-, 16- or 20-bit packing", 300, 3000)],
             Which::Unchecked => vec![("direct distance/similarity calls", 20000, 200000), ("direct calls beyond capacity 20", 5000, 50000), ("store-level searches", 5000, 50000), ("store-level rounds with 127-1500 records", 200, 2000), ("store-level rounds with clear and re-add", 500, 5000), ("type-ahead sequences with adds in between", 1000, 10000), ("direct call sequences with words of 76-420 letters", 200, 2000), ("direct call sequences with arithmetic length relations", 300, 3000), ("store-level queries of 65-200 words", 300, 3000), ("searches on a surviving store after a neighbour store was dropped", 3000, 30000), ("stores filled on one thread and searched on another", 500, 5000), ("direct calls whose arguments share their buffers", 5000, 50000), ("jaccard calls on sets of 256-70000 distinct elements", 20, 200), ("hook matrix accesses", 1000000, 10000000), ("hook matrix growths", 3, 3), ("hook matrix max size", 50, 50), ("hook counter accesses", 10000, 100000), ("hook cost accesses", 100000, 1000000), ("hook jaccard accesses", 10000, 100000)],
         }
     }
@@ -1017,6 +1069,12 @@ impl Prop for Prims {
                     }
                     2 => cv("aeiob\0cdf19xж"),
                     3 if cx.rng.chance(1, 2) => cv("ae\0\u{7f}\u{80}\u{ff}\u{100}\u{7ff}\u{800}\u{ffff}\u{10000}\u{1ffff}\u{10ffff}b"),
+                    4 => {
+                        // letters that some mapping identifies with each other (case, title case, compatibility forms): for the
+                        // distance they are as different as any two letters
+                        cx.count("random cases over letters related by case or compatibility mappings");
+                        cv("aAbBжЖǅǆǄıIİiſsK\u{212a}σς1ａ")
+                    }
                     _ => cv("aeiobcdf19xж"),
                 };
                 // half of the cases run their whole call history on an instance of their own, so that
